@@ -34,9 +34,20 @@ def fr(x):
 
 
 def tmv(*a):
-    from AEIC.performance.types import ThrustModeValues
+    """Per-mode values idle, approach, climb, take-off.  The object is a mapping keyed by mode: how it was
+    built (positionally, from a dict in idle..take-off order, or from a dict in the ICAO databank's
+    take-off..idle order) carries no meaning; the form is chosen deterministically from the values."""
+    from AEIC.performance.types import ThrustMode, ThrustModeValues
 
-    return ThrustModeValues(*[float(x) for x in a])
+    v = [float(x) for x in a]
+    form = hash(tuple(v)) % 3  # (hashes of floats are not randomised)
+    modes = [ThrustMode.IDLE, ThrustMode.APPROACH, ThrustMode.CLIMB, ThrustMode.TAKEOFF]
+    if form == 0:
+        return ThrustModeValues(*v)
+    pairs = list(zip(modes, v))
+    if form == 2:
+        pairs.reverse()
+    return ThrustModeValues(dict(pairs))
 
 
 def eval_case(job):
@@ -64,6 +75,18 @@ def eval_case(job):
             devs = []
             if abs(t * 100 - o['t']) > 1e-7:
                 devs.append(('isa:temperature', f'T({h} m) = {t} K; specification: {o["t"] / 100} K'))
+            # the lattice altitudes are whole metres: the value counts, not the numeric type it arrives in
+            p_ref = float(pressure_at_altitude_isa_bada4(np.array([h]))[0])
+            for form, arg in (('int array', np.array([int(h)])), ('python int', int(h)), ('numpy int64', np.int64(int(h))), ('python float', h), ('list of int', [int(h)])):
+                try:
+                    tv = float(np.asarray(temperature_at_altitude_isa_bada4(arg), float).ravel()[0])
+                    pv = float(np.asarray(pressure_at_altitude_isa_bada4(arg), float).ravel()[0])
+                except Exception as e:
+                    devs.append(('isa:argument-type', f'altitude {h} m given as {form}: raised {type(e).__name__}: {e}'))
+                    continue
+                if abs(tv * 100 - o['t']) > 1e-7 or abs(pv - p_ref) > 1e-9 * p_ref:
+                    devs.append(('isa:argument-type', f'altitude {h} m given as {form}: T = {tv} K, p = {pv} Pa; as float array: T = {t} K, p = {p_ref} Pa'))
+                    break
             p = float(pressure_at_altitude_isa_bada4(np.array([h]))[0])
             back = float(altitude_from_pressure_isa_bada4(np.array([p]))[0])
             if not (math.isfinite(p) and p > 0):
